@@ -171,6 +171,27 @@ def run(case):
             if est > 2000:
                 count = 25      # default count would be too long: use an explicit count instead
     desc = 'backoff_iter(%r, %r, count=%r, factor=%r, jitter=%r)' % (start, stop, count, factor, jitter)
+    inter = None
+    if not jitter and len(case['draws']) % 3 != 1:
+        # FIRST use of these parameters in the case: several live iterators over them, advanced in a generated interleaving (one
+        # may overtake the other, one is left suspended half-way in half of the cases).  Each must yield a prefix of the sequence,
+        # and everything checked below - made afterwards with the same parameters - must be unaffected.
+        its = [iterutils.backoff_iter(start, stop, count=count, factor=factor) for _ in range(3)]
+        inter = [[], [], []]
+        draws = list(case['draws']) or [0.0, 0.9, 0.9, 0.4]
+        limit = 2 if draws[0] < 0.5 else 10 ** 6
+        live = [0, 1, 2]
+        for step in range(90):
+            if not live:
+                break
+            w = live[int(draws[step % len(draws)] * 2.999) % len(live)]
+            r = _call(next, its[w], None)
+            if r[0] != 'ok':
+                return out.fail('c15.interleaved', '%s: one of three interleaved iterators raised %r' % (desc, r))
+            if r[1] is None or (w == 2 and len(inter[2]) >= limit):
+                live.remove(w)
+                continue
+            inter[w].append(r[1])
     fake = FakeRandom(case['draws'])
     stub = types.SimpleNamespace(random=fake.random)
     real_random = iterutils.random
@@ -246,6 +267,12 @@ def run(case):
         if count is None and (len(seq) != len(_default_len_seq(start, stop, factor))):
             return out.fail('c15.length', '%s: default count with jitter gives %d values, without %d' % (
                 desc, len(seq), len(_default_len_seq(start, stop, factor))))
+    if inter is not None:
+        for w in (0, 1, 2):
+            if inter[w] != seq[:len(inter[w])]:
+                return out.fail('c15.interleaved', '%s: three iterators advanced in turn; iterator %d yielded %s, expected a prefix of %s' % (
+                    desc, w, _sh(inter[w]), _sh(seq)))
+        out.label('interleaved_iterators')
     growth = sum(1 for a, b in zip(base, base[1:]) if b > a)
     out.nontrivial = (growth >= 2 and bool(base) and base[-1] == stop) or start == 0.0 or case['klass'] == 'targeted'
     if start == 0.0:
